@@ -73,7 +73,8 @@ def syntaxError (ts : List String) : Bool :=
   | _ => false
 
 def alphabet : List Bytes :=
-  [[], [0x61], [0x61, 0x62], [0x62], [0xC3, 0xA9], [0x61, 0x2E, 0x62], [0x7A, 0x7A]]
+  [[], [0x61], [0x61, 0x62], [0x62], [0xC3, 0xA9], [0x61, 0x2E, 0x62], [0x7A, 0x7A],
+   [0x61, 0x5C, 0x75, 0x30, 0x30, 0x36, 0x32], [0x43, 0x3A, 0x5C, 0x74, 0x65, 0x6D, 0x70]]
 
 def renderEntries (es : List (Bytes × Option Val)) : String :=
   " ".intercalate (es.map fun (k, v) =>
